@@ -342,6 +342,11 @@ NEST_FIXED = ["1/- 0 r0=r0.0", "1,2/2/- 0,1 r0=r0.0.0;x", "1/2/3/- 0 r0=r0.0;r0=
               "1/2/- 0 r0.0=r0.0.0", "1,2/3/3/- 0 r0.0=r0.1;r0=r0.0", "1/- 0,0 r0=r0.0;r1=r1.0", "1/- 0 r0=r0;r0=r0.0;r0=r0.5", "1,2/-/- 0 x;x"]
 
 
+def PROD_CASE(case):
+    """production-build pass: only the free-running contention runs mean anything without the hook points"""
+    return case[0].startswith("stress ")
+
+
 def nontrivial(case):
     t = case[0].split()
     if t[0] == "stress":
